@@ -22,6 +22,41 @@ use futures::{
 };
 use std::sync::Arc;
 
+/// Completes the QoS 2 exchange of a [publish](ContextHandle::publish) future that is dropped
+/// after the PUBREC was handed over by the context but before the future saw it.
+struct PubrelOnDrop {
+    sender: mpsc::UnboundedSender<ContextMessage>,
+    receiver: Option<oneshot::Receiver<Result<RxPacket, MqttError>>>,
+}
+
+impl Drop for PubrelOnDrop {
+    fn drop(&mut self) {
+        if let Some(mut receiver) = self.receiver.take() {
+            receiver.close();
+
+            if let Ok(Some(Ok(RxPacket::Pubrec(pubrec)))) = receiver.try_recv() {
+                if (pubrec.reason as u8) < 0x80 {
+                    let mut builder = PubrelTxBuilder::default();
+                    builder.packet_identifier(pubrec.packet_identifier);
+                    let pubrel = builder.build().unwrap();
+
+                    let mut buf = BytesMut::with_capacity(pubrel.packet_len());
+                    pubrel.encode(&mut buf);
+
+                    let (sender, _) = oneshot::channel();
+                    let _ = self
+                        .sender
+                        .unbounded_send(ContextMessage::AwaitAck(AwaitAck {
+                            action_id: tx_action_id(&TxPacket::Pubrel(pubrel)),
+                            packet: buf,
+                            response_channel: sender,
+                        }));
+                }
+            }
+        }
+    }
+}
+
 /// Cloneable handle to the client [Context](crate::Context). The [ContextHandle] object is used to perform MQTT operations.
 ///
 #[derive(Clone)]
@@ -157,8 +192,22 @@ impl ContextHandle {
 
                 self.sender.unbounded_send(pub_msg)?;
 
-                let pubrec = pubrec_receiver
-                    .await?
+                // Should this future be dropped while the PUBREC is already waiting in
+                // the channel, the guard sends the PUBREL that is owed to the broker.
+                let mut pubrec_guard = PubrelOnDrop {
+                    sender: self.sender.clone(),
+                    receiver: Some(pubrec_receiver),
+                };
+
+                let pubrec = pubrec_guard
+                    .receiver
+                    .as_mut()
+                    .unwrap()
+                    .await
+                    .map(|res| {
+                        pubrec_guard.receiver = None;
+                        res
+                    })?
                     .map(|rx_packet| match rx_packet {
                         RxPacket::Pubrec(pubrec) => pubrec,
                         _ => unreachable!("Unexpected packet type."),
